@@ -83,17 +83,24 @@ bool ParallelAction::isReady() const {
 void ParallelAction::onStart() {
     AssembleAction::onStart();
 
+    const auto state_at_entry = state();
+
     for (size_t index = 0; index < children_.size(); ++index) {
         Action *action = children_.at(index);
         if (!action->start()) {
             finished_children_[index] = false;
             //! 如果是任一失败都退出，那么要直接结束
+            //! 先停止其余子动作再 finish()：finish() 的 final 回调里可能已重新启动本动作，之后不能再动子动作
             if (mode_ == Mode::kAnyFail) {
-                finish(true);
                 stopAllActions();
+                finish(true);
                 return;
             }
         }
+        //! 子动作 start() 期间的回调可能已经 stop()/reset()/finish() 了本动作，此时不能再继续启动其余子动作
+        //! （只是被 pause() 的话仍要把其余子动作启动起来，否则 resume() 之后它们永远不会运行）
+        if (state() != state_at_entry && state() != State::kPause)
+            return;
     }
 
     //! 如果全部都启动失败了，那么就直接结束
